@@ -633,7 +633,16 @@ static void eq_case(Rng & rng, const std::string & tier, long sub) {
         size_t id = rng.below(A.size());
         FM_::JointActionLearner jal(S, A, id, gamma, alpha);
         AIToolbox::MDP::QLearning ql(S, F::factorSpace(A), gamma, alpha);
-        for (int t = 0; t < steps; ++t) {
+        int jsteps = std::min(steps, 40);      // exact rationals grow with the history length
+        Line jl; jl << "C14" << "jal" << S; jl.nats(A) << id << alpha << gamma << (size_t)jsteps;
+        for (int t = 0; t < jsteps; ++t) {
+            size_t s = rng.below(S), s1 = rng.below(S); F::Factors a(A.size()); for (size_t k = 0; k < A.size(); ++k) a[k] = rng.below(A[k]);
+            double r = dy(rng);
+            jal.stepUpdateQ(s, a, s1, r); ql.stepUpdateQ(s, F::toIndex(A, a), s1, r);
+            jl << s; for (auto x : a) jl << x; jl << s1 << r;
+        }
+        jl << "|"; putMat(jl, jal.getJointQFunction()); putMat(jl, jal.getSingleQFunction()); jl.emit();
+        for (int t = jsteps; t < steps; ++t) {
             size_t s = rng.below(S), s1 = rng.below(S); F::Factors a(A.size()); for (size_t k = 0; k < A.size(); ++k) a[k] = rng.below(A[k]);
             double r = dy(rng);
             jal.stepUpdateQ(s, a, s1, r); ql.stepUpdateQ(s, F::toIndex(A, a), s1, r);
